@@ -103,6 +103,7 @@ def c12_b(ctx):
     if len(demanded) < 3:
         ctx.undecided('expected three metric/argument demands, found {}'.format(demanded))
     fwd = None
+    extra_guards = []
     for n in own_nodes(init.node):
         if isinstance(n, ast.For):
             it = ex.term(n.iter, cfg_of(init).by_stmt[id(n)])
@@ -114,11 +115,32 @@ def c12_b(ctx):
                               for s in ast.walk(n))
                 if body_ok:
                     fwd = (n, set(x[1] for x in it[1]))
+                    # forwarded whenever present: the store is conditional on nothing but the
+                    # key being among the keyword arguments
+                    for s in ast.walk(n):
+                        if not (isinstance(s, ast.Assign) and
+                                isinstance(s.targets[0], ast.Subscript) and
+                                match(ex.term(s.value), pattern('kwargs.pop(_k)')) is not None):
+                            continue
+                        inner = set(id(x) for x in ast.walk(n))
+                        for (tn, pol) in cfg_of(init).guards_of(ctx.node(init, s)):
+                            if tn.kind != 'test' or id(tn.ast) not in inner:
+                                continue
+                            g = ex.term(tn.ast, tn)
+                            if not (pol and match_any(g, ('_k in kwargs.keys()',
+                                                          '_k in kwargs')) is not None):
+                                extra_guards.append((s, tn.ast))
     ctx.check(fwd is not None, init, 'forwarding loop', 'cdist_kwargs[key] = kwargs.pop(key)',
               'metric arguments are not moved from kwargs into the cdist arguments', fn=init,
               node=init.node)
     if fwd is None:
         return
+    ctx.check(not extra_guards, init, 'forwarded whenever given',
+              'the only condition on forwarding a metric argument is that it was given',
+              'a given metric argument is taken out of kwargs but forwarded to cdist only under '
+              '`{}`: otherwise it is silently dropped'.format(
+                  src(extra_guards[0][1])[:60] if extra_guards else ''), fn=init,
+              node=extra_guards[0][0] if extra_guards else fwd[0])
     for metric, key in sorted(demanded.items()):
         ctx.check(key in fwd[1], init, 'argument {} of {} forwarded'.format(key, metric),
                   '{} in {}'.format(key, sorted(fwd[1])),
